@@ -46,6 +46,13 @@ FailOrder(std::memory_order mo) noexcept
 }
 
 template <class T>
+struct Atomic;
+
+// notification sequence numbers for atomic wait/notify, indexed by a hash of the address (a collision
+// only causes a spurious wake-up, which the standard allows)
+inline Atomic<uint32_t> *NotifySeq(const void *addr) noexcept;
+
+template <class T>
 struct Atomic {
   static_assert(std::is_trivially_copyable_v<T> && sizeof(T) <= 8);
   using value_type = T;
@@ -185,9 +192,34 @@ struct Atomic {
   VSHIM_INLINE T operator|=(T a) noexcept { return fetch_or(a) | a; }
   VSHIM_INLINE T operator^=(T a) noexcept { return fetch_xor(a) ^ a; }
 
+  // C++20 waiting: returns only after the value differs from `old`; blocks until notified in between
+  void
+  wait(T old, std::memory_order mo = std::memory_order_seq_cst) const noexcept
+  {
+    auto *seq = NotifySeq(&v_);
+    for (;;) {
+      const auto s0 = seq->load(std::memory_order_acquire);
+      if (ToU64(load(mo)) != ToU64(old)) return;
+      while (seq->load(std::memory_order_acquire) == s0) {
+        // parked until a notify_* on this address (the scheduler sees a thread spinning on `seq`)
+      }
+    }
+  }
+  void notify_one() noexcept { NotifySeq(&v_)->fetch_add(1, std::memory_order_release); }
+  void notify_all() noexcept { NotifySeq(&v_)->fetch_add(1, std::memory_order_release); }
+
   // raw (unscheduled, unreported) access for harness code
   [[nodiscard]] T Raw() const noexcept { return __atomic_load_n(&v_, __ATOMIC_SEQ_CST); }
 };
+
+inline Atomic<uint32_t> *
+NotifySeq(const void *addr) noexcept
+{
+  static Atomic<uint32_t> table[256];
+  auto h = reinterpret_cast<uintptr_t>(addr);
+  h ^= h >> 12U;
+  return &table[(h >> 3U) & 255U];
+}
 
 struct AtomicFlag {
   Atomic<bool> f_{};
